@@ -3,7 +3,7 @@ SPEC = dict(
     title='External commands cannot hang or crash fan2go',
     props_file='Props/C19.v', props_mod='Props.C19',
     proof_files=['Proofs/ExecCmd.v', 'Proofs/ExecShape.v', 'Proofs/ExecPerm.v', 'Drv/Exec.v'],
-    tie_vo=['Proofs/ExecShape.vo', 'Proofs/ConstsTie_delays.vo'],
+    tie_vo=['Proofs/ExecShape.vo', 'Proofs/ConstsTie_delays.vo', 'Proofs/LeafTie2_CheckFilePermissions.vo'],
     drivers=[dict(name='exec', drv_mod='Drv.Exec', drv_file='Drv/Exec.v', shard=200,
                   args={'quick': ['reps=1', 'long=3000'], 'thorough': ['reps=6', 'long=6000']},
                   timeout={'quick': 300, 'thorough': 1500})],
